@@ -47,6 +47,12 @@ def recording_case(ctx, seed):
         # the service keeps mutating the objects it handed to the recorder after the save
         nmut = mutate_deep(data) + mutate_deep(md)
         reader = box.reader()
+        if rng.random() < 0.6:
+            # the usual flow: a lookup finds the id, then it is fetched (and fetched again)
+            listed = list(reader.iter_recording_ids('Cat'))
+            if rec.id not in listed:
+                ctx.violation('saved recording not listed on %s cassette' % kind, w)
+            ctx.count('fetches_after_a_lookup')
         r1 = reader.get_recording(rec.id)
         handed = []
         for k in sorted(model_d):
@@ -77,8 +83,17 @@ def recording_case(ctx, seed):
         mo2 = reader.get_recording_metadata(rec.id)
         if not teq(mo2, model_m) or shares_mutable(mo, mo2):
             ctx.violation('two metadata-only fetches are not independent', w)
+        # writing into the first fetched recording object (item assignment) must not reach later fetches either
+        try:
+            r1['__added_by_the_reader__'] = ['x']
+            for k in sorted(model_d)[:1]:
+                r1[k] = 'OVERWRITTEN-IN-FIRST-FETCH'
+        except Exception:
+            pass
         # second fetch of the recording: independent graph, pristine content
         r2 = reader.get_recording(rec.id)
+        if set(r2.get_all_keys()) != set(model_d):
+            ctx.violation('second fetch observes keys written into the first fetched recording object (%s cassette)' % kind, w)
         ctx.count('fetch_pairs_checked')
         if not teq(r2.get_metadata(), model_m):
             ctx.violation('second fetch observes the mutation of the metadata of the first fetch (%s cassette)' % kind, w)
@@ -164,6 +179,61 @@ def replay_case(ctx, seed):
         ctx.count('replay_pairs')
 
 
+def exception_case(ctx, seed):
+    """Recorded exceptions are recorded data too: replayed code that catches an injected exception and annotates it in place must
+    not change what a later call of the same key - in the same replay or in the next one - is handed."""
+    from playback.tape_recorder import TapeRecorder
+    from vlib.values import StatefulError, UserError
+    rng = random.Random(seed)
+    kind = ('memory', 'file', 's3')[seed % 3]
+    static = rng.random() < 0.5
+    d = {'name': 'in0', 'io': 'in', 'kind': 'static' if static else 'instance', 'nparams': 1, 'resolver': None, 'capture': 'all',
+         'handler': rng.choice([None, 'wrap']), 'fallback': None, 'run_original': False, 'substitute': ('none',), 'nested': [], 'alias': 'exc.in'}
+    calls = [rng.choice([1, 2]) for _ in range(rng.randrange(2, 6))]
+    mk = lambda mut: [{'op': 'try', 'mutate_caught': mut, 'body': [{'op': 'in', 'decl': 'in0', 'args': [{'lit': a}], 'kwargs': {}, 'var': 'v%d' % i}]}
+                      for i, a in enumerate(calls)]
+    prog = {'seed_world': seed, 'class_level': False, 'extractor': None, 'params': None, 'opts': {'raise_rate': 0}, 'inputs': [d], 'outputs': [],
+            'body': mk(False), 'uid': 950000 + seed % 40000}
+    p_mut = dict(prog, body=mk(True))
+    w = {'case_seed': seed, 'cassette': kind, 'calls': calls, 'case': 'exception'}
+    with open_box(kind) as box:
+        spy = SpyCassette(box.cassette)
+        rec = TapeRecorder(spy)
+        rec.enable_recording()
+        live = Built(prog, rec, World(seed, force_raise=rng.choice([StatefulError, StatefulError, UserError])))
+        live.run('live')
+        saves = [e for e in spy.log if e[0] == 'save']
+        if len(saves) != 1 or any(e[0] == 'save_failed' for e in spy.log):
+            ctx.count('exception_cases_not_saved')
+            return
+        rec2 = TapeRecorder(box.reader())
+        pristine = None
+        for round_no in range(2):
+            rep = Built(p_mut, rec2, World(1, poison=True), cls_name=live.cls.__name__)
+            pb = rec2.play(saves[0][2], playback_function_for(rep))
+            for e in rep.journal.calls():
+                ctx.count('injected_exceptions_checked')
+                if 'exc' not in e:
+                    ctx.violation('recorded exception was not raised in replay', w)
+                    return
+                if pristine is None:
+                    pristine = e['exc_state']
+                elif e['exc_state'] != pristine:
+                    ctx.violation('replay %d injected an exception altered by what the replayed code did to an earlier injected exception' % (round_no + 1),
+                                  dict(w, pristine=pristine, got=e['exc_state']))
+                    return
+            # what the replay left in the fetched recording must not have been altered either
+            orig = pb.original_recording
+            for k in orig.get_all_keys():
+                v = orig.get_data(k)
+                if isinstance(v, dict) and 'exception' in v:
+                    st = (repr(getattr(v['exception'], 'args', None)), repr(sorted((a, repr(b)) for a, b in vars(v['exception']).items())))
+                    if st != pristine:
+                        ctx.violation('the recording played holds an exception altered by the replayed code', dict(w, pristine=pristine, got=st))
+                        return
+        ctx.case(('exception', seed, kind, tuple(calls)), nontrivial=True)
+
+
 def copy_case(ctx, seed):
     from playback.tape_recorder import TapeRecorder
     rng = random.Random(seed)
@@ -221,6 +291,8 @@ def run(ctx):
         replay_case(ctx, base + i)
     for i in range(ctx.budget(150, 6000)):
         copy_case(ctx, base + i)
+    for i in range(ctx.budget(60, 3000)):
+        exception_case(ctx, base + i)
     if not ctx.quick and ctx.shard == 0:
         from vlib.repo_tests import run_under_monitors
         res, tail = run_under_monitors()
@@ -241,3 +313,4 @@ def replay(ctx, w):
     recording_case(ctx, s)
     replay_case(ctx, s)
     copy_case(ctx, s)
+    exception_case(ctx, s)
